@@ -109,7 +109,7 @@ def real_kernel(ctx):
     rc, data, log = sandbox.run_driver('harness.conn_main', [ctx.tier], timeout=400 * scale,
                                        env={'VERIF_TIME_SCALE': str(scale)})
     if rc != 0 or data is None:
-        raise RuntimeError('connection driver failed (rc=%s): %s' % (rc, log[-1500:]))
+        sandbox.driver_failed('connection', rc, log)
     ctx.traces += len(data)
     ctx.replay_steps += sum(len(d['results']) for d in data)
     ctx.note('real_connection_scenarios', [{k: d[k] for k in ('kind', 'mode', 'n', 'kill_after', 'tail')}
